@@ -185,6 +185,15 @@ def _collect(obs):
     return out
 
 
+def _built(make):
+    """run one form of the slice; an exception raised while the sliced observable is being BUILT (or subscribed) is the
+    observed outcome of the case, not a harness failure"""
+    try:
+        return _collect(make())
+    except Exception as e:
+        return [["raised-at-build", err_name(e)]]
+
+
 def exh_impl(case):
     """real code on `from_iterable(range(len))`: ops.slice, source[a:b:c] (and source[i] for index cases)"""
     import reactivex as rx
@@ -192,10 +201,10 @@ def exh_impl(case):
 
     xs = list(range(case["len"]))
     if "index" in case:
-        return {"index": _collect(rx.from_iterable(xs)[case["index"]])}
+        return {"index": _built(lambda: rx.from_iterable(xs)[case["index"]])}
     a, b, c = case["start"], case["stop"], case["step"]
-    return {"ops": _collect(rx.from_iterable(xs).pipe(ops.slice(a, b, c))),
-            "getitem": _collect(rx.from_iterable(xs)[a:b:c])}
+    return {"ops": _built(lambda: rx.from_iterable(xs).pipe(ops.slice(a, b, c))),
+            "getitem": _built(lambda: rx.from_iterable(xs)[a:b:c])}
 
 
 def exh_oracle(case, out):
